@@ -458,28 +458,63 @@ def _mk_between(ne, P):
     return _mknode({"k": "binary", "op": "&&", "l": a, "r": b})
 
 
+def _int_binop(op, a, b):
+    from ..rules.interp import NotPure
+    if isinstance(a, int) and isinstance(b, int) and not isinstance(a, bool) and not isinstance(b, bool) and op in ("+", "-", "*"):
+        return a + b if op == "+" else (a - b if op == "-" else a * b)
+    raise NotPure("arithmetic %s on %r, %r" % (op, a, b))
+
+
 def ob_views(ctx, res):
     """C18-F2 (parallel source side)"""
-    fn = ctx.ast.fn(BD, "process_to_bbi", impl="BedParserParallelStreamingIterator")
+    from ..rules.interp import Interp, NotPure
+    from ..astq import _tnorm, upn
+    fn = ctx.ast.fn(BD, "process_to_bbi", impl="BedParserParallelStreamingIterator", inline=True)
     fv = [c for c in walk_no_nested_fn(fn.body) if c.k == "call" and up(c["func"]) == "FileView::new"]
     if len(fv) != 1:
-        res.fail("views/site", fn, "expected one FileView::new per chromosome")
+        res.undecided("views/site", fn, "expected one FileView::new per chromosome, found %d" % len(fv))
         return
-    a = [up(strip(x)) for x in fv[0]["args"]]
-    m = re.fullmatch(r"(\w+)\.map\(\|(\w+)\| \2\.0\)\.unwrap_or\(u64::MAX\)", a[2])
-    if not (re.fullmatch(r"(\w+)\.0", a[1]) and m):
-        res.fail("views/bounds", fv[0], "a chromosome's view must be [its index offset, the next entry's offset or end of file); got (%s, %s)" % (a[1], a[2]))
+    pat = [n for n in walk_no_nested_fn(fn.body) if n.k == "let" and n["pat"].k == "p_tuple" and len(n["pat"]["elems"]) == 2 and n.get("init") is not None
+           and ".chrom_indices.pop()" in up(n["init"]) and ".chrom_indices.last()" in up(n["init"])]
+    if len(pat) != 1 or not all(e.k == "p_ident" for e in pat[0]["pat"]["elems"]):
+        res.undecided("views/consecutive", fv[0], "the (current, next) pair of index entries is not bound by one `let (curr, next) = match ..pop() { Some(c) => (c, ..last()), .. }`")
         return
-    cur, nxt = a[1][:-2], m.group(1)
-    pat = [n for n in walk_no_nested_fn(fn.body) if n.k == "let" and n["pat"].k == "p_tuple" and [up(e) for e in n["pat"]["elems"]] == [cur, nxt]]
-    if len(pat) != 1 or ".chrom_indices.pop()" not in up(pat[0]["init"]) or ".chrom_indices.last()" not in up(pat[0]["init"]):
-        res.fail("views/consecutive", fv[0], "(current, next) must be consecutive index entries")
+    init = strip(pat[0]["init"])
+    okpair = False
+    if init.k == "match" and up(strip(init["scrut"])).endswith(".chrom_indices.pop()"):
+        for a_ in init["arms"]:
+            m = re.fullmatch(r"Some\((\w+)\)", up(a_["pat"]))
+            if m and re.fullmatch(r"\(%s, ?self\.chrom_indices\.last\(\)\)" % m.group(1), up(strip(a_["body"]))):
+                okpair = True
+    if not okpair:
+        res.fail("views/consecutive", pat[0], "(current, next) must be the popped index entry and the one that follows it (`Some(c) => (c, self.chrom_indices.last())`)")
         return
+    cur, nxt = [e["name"] for e in pat[0]["pat"]["elems"]]
+    args = fv[0]["args"]
+    if len(args) != 3:
+        res.undecided("views/bounds", fv[0], "FileView::new with %d arguments" % len(args))
+        return
+    rows = 0
+    for nv in (None, ("some", (7, "N"))):
+        env = {cur: (3, "C"), nxt: nv}
+        try:
+            it = Interp(ctx.ast, BD, extern={"None": None, "path": lambda p_: ("sym", p_), "binop": _int_binop})
+            lo = it.ev(_tnorm(fn, strip(args[1])), env, 0)
+            hi = it.ev(_tnorm(fn, strip(args[2])), env, 0)
+        except NotPure as e:
+            res.undecided("views/bounds", fv[0], "view bounds `%s`, `%s` are outside the fragment the rule evaluates (%s)" % (up(args[1]), up(args[2]), e))
+            return
+        rows += 1
+        want_hi = 7 if nv is not None else ("sym", "u64::MAX")
+        if lo != 3 or hi != want_hi:
+            res.fail("views/bounds", fv[0], "a chromosome's view must be [its index offset, the next entry's offset or end of file); with %s next entry the bounds are (%s, %s)" % (
+                "a" if nv else "no", lo, hi))
+            return
     sp = [c for c in walk_no_nested_fn(fn.body) if c.k == "call" and up(c["func"]) == "start_processing"]
-    if not sp or up(strip(sp[0]["args"][0])).replace(".clone()", "") != cur + ".1":
+    if not sp or upn(fn, sp[0]["args"][0]).replace(".clone()", "") != cur + ".1":
         res.fail("views/name", fn, "the processor must be started for the chromosome name of the same index entry")
         return
-    res.ok(fv[0], "parallel source: view [index[i].offset, index[i+1].offset | EOF) processed under index[i].name")
+    res.ok(fv[0], "parallel source: view [index[i].offset, index[i+1].offset | EOF) processed under index[i].name (%d cases)" % rows)
 
 
 def ob_index_grouping(ctx, res):
@@ -566,6 +601,44 @@ def _match_of(arm):
     while x is not None and isinstance(x, Node) and x.k != "match":
         x = x.parent
     return x if isinstance(x, Node) else None
+
+
+def _parse_none_exit(fn, r_):
+    """the return sits in the None outcome of an Option dispatch on the parsed line"""
+    from ..astq import opt_dispatch
+    x = r_.parent
+    while x is not None and isinstance(x, Node):
+        d = opt_dispatch(x) if x.k in ("match", "if", "let") else None
+        if d is not None and d[3] is not None and _inside(d[3], r_) and "parse_line" in origin(fn, d[0]):
+            return True
+        x = x.parent
+    return False
+
+
+def _side_cond(ctx, fn, cond, C, T, U, want):
+    """evaluate a recursion guard over name(prev) / name(probed) / name(next) equal-or-not and next present-or-not; None iff it equals `want` everywhere"""
+    from ..rules.interp import Interp, NotPure
+    from ..astq import _tnorm
+    nf = _tnorm(fn, strip(cond))
+    for has_next in (False, True):
+        for np_, nc, nn in ((0, 0, 0), (0, 0, 1), (0, 1, 1), (0, 1, 0), (0, 1, 2)):
+            table = {"hp": (10, np_), "hc": (20, nc), "hn": (30, nn)}
+
+            def method(m, recv, args):
+                if m == "get" and recv == "CHROMS" and len(args) == 1 and args[0] in table:
+                    return ("some", table[args[0]])
+                raise NotPure("method " + m)
+            env = {"chroms": "CHROMS", "prev": "hp", C: "hc", "next": ("some", "hn") if has_next else None, T: 20, U: 30 if U else None}
+            if U:
+                env[U] = 30
+            try:
+                got = Interp(ctx.ast, IX, extern={"None": None, "method": method}).ev(nf, env, 0)
+            except NotPure as e:
+                return ("undecided", str(e))
+            w = want(nc, np_, nn, has_next)
+            if bool(got) != bool(w):
+                return ("differs", got, "name(prev), name(probed), name(next) = %s, next %s" % ((np_, nc, nn), "present" if has_next else "absent"))
+    return None
 
 
 def ob_bisection(ctx, res):
@@ -726,6 +799,8 @@ def ob_bisection(ctx, res):
         elif par is not None and par.k == "arm" and up(par["pat"]) == "None" and _match_of(par) is not None and "parse_line" in origin(fn, _match_of(par)["scrut"]) \
                 and toplevel_stmt(g).order < toplevel_stmt(par).order:
             allowed += 1
+        elif _parse_none_exit(fn, r_) and toplevel_stmt(g).order < toplevel_stmt(r_).order:
+            allowed += 1     # the same None outcome of the parse, spelled `let Some(x) = parse_line(..)? else { return .. }` / `if let` / `match`
         else:
             res.fail("bisect/early-return", r_, "an exit that neither records the probed line nor narrows the interval: `%s`" % up(toplevel_stmt(r_))[:100])
             return
@@ -754,21 +829,23 @@ def ob_bisection(ctx, res):
             res.fail("bisect/recursion-err", c, "an error from a recursive search must be propagated")
             return
         ar = {names[k]: up(strip(c["args"][k])) for k in range(len(names))}
-        cond = _sq(_inl(fn, i["cond"]))
         if ar["prev"] == "prev" and ar["next"] == "Some(%s)" % C:
-            conj = set(cond.split("&&"))
-            if not (conj & name_ne(C, "prev")) or (conj - name_ne(C, "prev") - ok_extra):
-                res.fail("bisect/left-cond", i, "the left search may be skipped only when the probed line has prev's chromosome; condition is `%s`" % up(i["cond"]))
+            v = _side_cond(ctx, fn, i["cond"], C, T, U, lambda nc, np_, nn, has_next: nc != np_)
+            if v is not None and v[0] == "undecided":
+                res.undecided("bisect/left-cond", i, "left-search condition `%s` not evaluated (%s)" % (up(i["cond"])[:100], v[1]))
+            elif v is not None:
+                res.fail("bisect/left-cond", i, "the left search may be skipped only when the probed line has prev's chromosome; condition `%s` is %s when %s" % (up(i["cond"]), v[1], v[2]))
                 return
             if ar[U] != T:
                 res.fail("bisect/left-bound", c, "the left search covers line starts before the probed position; bound passed is `%s`" % ar[U])
                 return
             sides["left"] = c
         elif ar["prev"] == C and ar["next"] == "next":
-            want = {"next.map|next|chroms.get%s.unwrap.1!=chroms.getnext.unwrap.1.unwrap_ortrue" % C, "next.map|next|chroms.getnext.unwrap.1!=chroms.get%s.unwrap.1.unwrap_ortrue" % C,
-                    "next.map_ortrue,|next|chroms.get%s.unwrap.1!=chroms.getnext.unwrap.1" % C}
-            if cond not in want:
-                res.fail("bisect/right-cond", i, "the right search may be skipped only when the probed line has next's chromosome (never when there is no next); condition is `%s`" % up(i["cond"]))
+            v = _side_cond(ctx, fn, i["cond"], C, T, U, lambda nc, np_, nn, has_next: (not has_next) or nc != nn)
+            if v is not None and v[0] == "undecided":
+                res.undecided("bisect/right-cond", i, "right-search condition `%s` not evaluated (%s)" % (up(i["cond"])[:100], v[1]))
+            elif v is not None:
+                res.fail("bisect/right-cond", i, "the right search may be skipped only when the probed line has next's chromosome (never when there is no next); condition `%s` is %s when %s" % (up(i["cond"]), v[1], v[2]))
                 return
             if ar[U] != U:
                 res.fail("bisect/right-bound", c, "the right search keeps the interval's upper bound; bound passed is `%s`" % ar[U])
